@@ -119,8 +119,8 @@ func run(c *mon.Case) {
 
 func main() {
 	mon.Main(mon.Spec{
-		Prop: "C12",
-		Rule: "case = random expression tree with raised width-gadget density (chains of 1-3 gadgets of growing/shrinking/mixed widths in every operand position incl. memory load addresses); SetWidth to the same/other widths and PurgeWidthGadgets; non-trivial = tree with >=2 width gadgets, distinct by S-expression",
+		Prop:        "C12",
+		Rule:        "case = random expression tree with raised width-gadget density (chains of 1-3 gadgets of growing/shrinking/mixed widths in every operand position incl. memory load addresses); SetWidth to the same/other widths and PurgeWidthGadgets; non-trivial = tree with >=2 width gadgets, distinct by S-expression",
 		Explanation: "oracle: SetWidth(e,w) must have width w and value adjust(Eval(e),w); PurgeWidthGadgets(e) must keep width and value; both on 8 valuations by refir big-int evaluation (memory load addresses evaluated at their own width)",
 		Assumptions: []string{"refir reference evaluator"},
 		Cases: func(t string) int {
